@@ -138,7 +138,13 @@ impl Machine {
                 }
                 // Finish this instruction
                 while !self.is_instruction_done() && self.state() == State::Running {
-                    self.raw_mut().trigger_clock_edge()
+                    let before = self.raw.clone();
+                    self.raw_mut().trigger_clock_edge();
+                    // An undefined opcode makes the microprogram loop forever without
+                    // ever reaching the next instruction: return once nothing changes.
+                    if self.raw == before {
+                        break;
+                    }
                 }
             }
             StepMode::Real => self.raw_mut().trigger_clock_edge(),
